@@ -444,3 +444,197 @@ def scenario_script(sc, oracle_line=None, crash=False):
     for l in post:
         lines.append(sc["start"] if l.startswith("start @CFG@") else l)
     return "\n".join(lines)
+
+
+# ------------------------------------------------------------ property-specific history generators
+
+def gen_burst_case(rng, deb=None):
+    """C02: bursts of writes to several files, no reload; dumps around every timeout pass"""
+    deb = rng.choice([0, 1, 2, 3]) if deb is None else deb
+    s = Script()
+    setup_world(s, base_cfg(deb=deb))
+    s.start()
+    s.exec(3, X + "/vim")
+    files = [WATCH + "/inc/a.txt", WATCH + "/inc/b", WATCH + "/d/c.tar.gz", WATCH + "/n", WATCH + "/hist.log"]
+    n = 0
+    for _ in range(rng.randint(6, 30)):
+        r = rng.random()
+        if r < 0.5:
+            f = rng.choice(files)
+            for _ in range(rng.choice([1, 1, 2, 3])):
+                n += 1
+                if f.endswith("hist.log"):
+                    s.append(f, "l%d\n" % n)
+                else:
+                    s.put(f, "content %d %s" % (n, "x" * rng.randint(0, 20)))
+                s.write(3, f)
+                if rng.random() < 0.3:
+                    s.tick(rng.choice([0, 1]))
+        elif r < 0.7:
+            s.tick(rng.choice([0, 1, 1, 2, deb, deb + 1]))
+        elif r < 0.93:
+            s.dump()
+            s.timeout()
+            s.dump()
+        else:
+            s.restart()
+    s.tick(deb + 1)
+    s.dump()
+    s.timeout()
+    s.dump()
+    return s.text(), {"deb": deb}
+
+
+def gen_collision_case(rng):
+    """C04: many versions inside one timestamp, pre-existing store content, restarts"""
+    s = Script()
+    setup_world(s, base_cfg(deb=0))
+    f = rng.choice([WATCH + "/inc/a.txt", WATCH + "/inc/b", WATCH + "/inc/x.tar.gz", WATCH + "/proj/m.c"])
+    rel = f[len(WATCH) + 1:]
+    ext = {"a.txt": ".txt", "b": "", "x.tar.gz": ".tar.gz", "m.c": ".c"}[rel.rsplit("/", 1)[1]]
+    # pre-seed the store with names the daemon will want
+    for k in rng.sample(range(0, 6), rng.randint(0, 4)):
+        s.put("%s/k/store/%s/v%d%s%s" % (R, rel, CLOCK0, "-%d" % k if k else "", ext), "old %d" % k)
+    if rng.random() < 0.3:
+        s.mkdirp("%s/k/store/%s/v%d-%d%s" % (R, rel, CLOCK0, rng.randint(1, 3), ext))   # a directory takes a name
+    s.start()
+    s.exec(3, X + "/vim")
+    s.dump()
+    for i in range(rng.randint(2, 12)):
+        s.put(f, "version %d" % i)
+        s.write(3, f)
+        s.timeout()
+        s.dump()
+        if rng.random() < 0.15:
+            s.restart()
+        if rng.random() < 0.1:
+            s.tick(1)
+    return s.text(), {}
+
+
+def gen_copy_case(rng):
+    """C05: contents of all sizes, every chunking, and every way the source can change before the copy"""
+    s = Script()
+    setup_world(s, base_cfg(deb=1))
+    s.start()
+    s.exec(3, X + "/vim")
+    if rng.random() < 0.6:
+        s.add("chunk %d" % rng.choice([1000, 4095, 4096, 4097, 65536]))
+    files = [WATCH + "/inc/a.txt", WATCH + "/inc/deep/er/b.bin", WATCH + "/n"]
+    for f in files:
+        size = rng.choice([0, 1, 2, 4095, 4096, 4097, 70000, 12345])
+        if size <= 2:
+            s.put(f, "xy"[:size])
+        else:
+            s.putn(f, size, rng.randint(0, 25))
+        s.write(3, f)
+        change = rng.choice(["none", "none", "rewrite", "delete", "directory", "unreadable", "grow"])
+        if change == "rewrite":
+            s.put(f, "rewritten")
+        elif change == "grow":
+            s.putn(f, 80000, 5)
+        elif change == "delete":
+            s.rm(f)
+        elif change == "directory":
+            s.rm(f)
+            s.mkdirp(f)
+        elif change == "unreadable":
+            s.chmod(f, False)
+    s.tick(1)
+    s.dump()
+    s.timeout()
+    s.dump()
+    return s.text(), {}
+
+
+def gen_history_case(rng):
+    """C08: appends of any sizes to a history path, passes, restarts"""
+    s = Script()
+    setup_world(s, base_cfg(deb=rng.choice([0, 1])))
+    s.start()
+    H = WATCH + "/hist.log"
+    s.put(H, "")
+    n = 0
+    for _ in range(rng.randint(4, 25)):
+        r = rng.random()
+        if r < 0.45:
+            n += 1
+            s.append(H, "".join(rng.choice("abc\n") for _ in range(rng.choice([0, 1, 10, 60]))))
+            s.write(9, H)
+        elif r < 0.6:
+            s.tick(rng.choice([0, 1, 2]))
+        elif r < 0.9:
+            s.timeout()
+            s.dump()
+        else:
+            s.restart()
+    s.tick(2)
+    s.timeout()
+    s.dump()
+    return s.text(), {}
+
+
+def gen_project_case(rng):
+    """C11: writes and deletions at any depth inside projects, non-project files, passes, restarts"""
+    s = Script()
+    setup_world(s, base_cfg(deb=rng.choice([0, 1, 2])))
+    s.start()
+    s.exec(3, X + "/vim")
+    if rng.random() < 0.4:
+        s.add("ftsrev 1")
+    files = [WATCH + "/proj/README", WATCH + "/proj/src/m.c", WATCH + "/proj/src/deep/x/y.h", WATCH + "/pp/p1/f.c",
+             WATCH + "/pp/p1/sub/g.c", WATCH + "/pp/p2/h", WATCH + "/pp/loose.txt", WATCH + "/inc/a.txt"]
+    exists = set()
+    n = 0
+    for _ in range(rng.randint(6, 30)):
+        r = rng.random()
+        f = rng.choice(files)
+        if r < 0.5:
+            n += 1
+            s.put(f, "c%d" % n)
+            exists.add(f)
+            s.write(3, f)
+        elif r < 0.6 and f in exists:
+            s.rm(f)
+            exists.discard(f)
+        elif r < 0.72:
+            s.tick(rng.choice([0, 1, 2, 3]))
+        elif r < 0.93:
+            s.dump()
+            s.timeout()
+            s.dump()
+        else:
+            s.restart()
+    s.tick(3)
+    s.dump()
+    s.timeout()
+    s.dump()
+    return s.text(), {}
+
+
+def gen_journal_case(rng):
+    """C19: every choice of labels (absent, empty, text) and timestamp patterns, short writes at journal writes"""
+    labels = [rng.choice([None, "", "L%d" % i]) for i in range(7)]
+    jpat = rng.choice(["", "%s", "x", "t%s-"])
+    cfg = base_cfg(deb=rng.choice([0, 1]), ev=labels, jpat=jpat)
+    s = Script()
+    setup_world(s, cfg)
+    s.start()
+    files = [WATCH + "/inc/a.txt", WATCH + "/n", WATCH + "/hist.log", WATCH + "/proj/m.c"]
+    ncalls = 0
+    for _ in range(rng.randint(5, 20)):
+        r = rng.random()
+        if rng.random() < 0.3:
+            s.oracle("short", rng.randint(0, 30), rng.randint(1, 9))
+        if r < 0.2:
+            s.exec(rng.choice([3, 4]), rng.choice([X + "/vim", X + "/cat"]))
+        elif r < 0.6:
+            f = rng.choice(files)
+            s.put(f, "data%d" % rng.randint(0, 99))
+            s.write(rng.choice([3, 4]), f)
+        elif r < 0.7:
+            s.tick(1)
+        else:
+            s.timeout()
+        s.dump()
+    return s.text(), {"labels_all": False, "journal_counts": False}
